@@ -19,14 +19,29 @@
 (* durable image iff every page write of every version <= v is durable     *)
 (* (the checksums from the slot down verify exactly then).                 *)
 (*                                                                         *)
+(* A commit replaces some pages of the versions it is built on (copy on    *)
+(* write): `gone[v]` are the page writes of its ancestors that version v   *)
+(* no longer reaches.  A transaction may record a persistent savepoint: it *)
+(* pins the version the transaction began from (`pins[v]`), which must be  *)
+(* servable whenever v is what recovery finds - although recovery itself   *)
+(* only verifies v's own trees.                                            *)
+(*                                                                         *)
 (* Seeded-bad variants (negative configurations):                          *)
 (*   SyncBeforeFlip = FALSE   the first flush of a two-phase commit does   *)
 (*                            not reach the storage                        *)
 (*   PickNewer = FALSE        recovery ignores a newer valid secondary     *)
+(*   SavepointPreFlush = FALSE the commit of a transaction that created a  *)
+(*                            persistent savepoint does not write its      *)
+(*                            pages out before the commit slot (the code   *)
+(*                            before the fix recorded in                   *)
+(*                            known_findings.txt); forcing such a commit   *)
+(*                            to be two-phase (SavepointTwoPhase) is NOT   *)
+(*                            enough, as TLC shows: the first phase writes *)
+(*                            the new slot under the old two-phase flag    *)
 (***************************************************************************)
 EXTENDS Naturals, Sequences, FiniteSets, TLC
 
-CONSTANTS MaxVer, MaxParts, MaxCrash, MaxGrow, TornHeader, SyncBeforeFlip, PickNewer
+CONSTANTS MaxVer, MaxParts, MaxCrash, MaxGrow, TornHeader, SyncBeforeFlip, PickNewer, SavepointTwoPhase, SavepointPreFlush
 
 VARIABLES
   hdr,       \* header in memory: [primary, tpc, rec, slots]
@@ -36,6 +51,8 @@ VARIABLES
   pend,      \* writes issued since the last sync, in order
   vparts,    \* ver -> number of page writes issued for it
   parent,    \* ver -> the version it was built on (what was visible when its transaction began)
+  gone,      \* ver -> page writes of its ancestors it no longer reaches (replaced by copy on write)
+  pins,      \* ver -> versions pinned by the persistent savepoints it records
   cur,       \* the commit in progress, or None
   nextVer, nextTxn,
   acked,     \* version of the last durable commit the caller was told about
@@ -43,9 +60,9 @@ VARIABLES
   crashes, grows,
   bad        \* a recovery went wrong (set by Crash)
 
-cvars == <<hdr, dgod, dslots, dpages, pend, vparts, parent, cur, nextVer, nextTxn, acked, visible, crashes, grows, bad>>
+cvars == <<hdr, dgod, dslots, dpages, pend, vparts, parent, gone, pins, cur, nextVer, nextTxn, acked, visible, crashes, grows, bad>>
 
-None == [ver |-> 0, kind |-> "none", stage |-> "idle"]
+None == [ver |-> 0, kind |-> "none", stage |-> "idle", sp |-> FALSE]
 Other(i) == 3 - i
 Slot(t, v) == [txn |-> t, ver |-> v]
 
@@ -54,6 +71,7 @@ Init ==
   /\ dgod = [primary |-> 1, tpc |-> TRUE, rec |-> TRUE]
   /\ dslots = <<Slot(1, 0), Slot(0, 0)>>
   /\ dpages = {} /\ pend = <<>> /\ vparts = (0 :> 0 @@ 1 :> 0) /\ parent = (0 :> 0 @@ 1 :> 0)
+  /\ gone = (0 :> {} @@ 1 :> {}) /\ pins = (0 :> {} @@ 1 :> {})
   /\ cur = None /\ nextVer = 1 /\ nextTxn = 2 /\ acked = 0 /\ visible = 0
   /\ crashes = 0 /\ grows = 0 /\ bad = FALSE
 
@@ -89,18 +107,41 @@ WritePage ==
   \* the writes of one flush are issued in no particular order (the header first, usually); a two-phase
   \* commit has flushed everything by the time it swaps the primary
   /\ ~(cur.kind = "2pc" /\ cur.stage \in {"swap", "sync2"})
+  /\ ~(cur.sp /\ SavepointPreFlush /\ cur.stage # "presync")     \* nothing is left to write after the pre-flush
   /\ vparts' = [vparts EXCEPT ![v] = @ + 1]
   /\ pend' = Append(pend, [k |-> "page", ver |-> v, n |-> vparts[v] + 1])
-  /\ UNCHANGED <<parent, hdr, dgod, dslots, dpages, cur, nextVer, nextTxn, acked, visible, crashes, grows, bad>>
+  /\ UNCHANGED <<parent, gone, pins, hdr, dgod, dslots, dpages, cur, nextVer, nextTxn, acked, visible, crashes, grows, bad>>
 
-\* commit(): durable, one-phase ("1pc") or two-phase ("2pc")
-Begin(kind) ==
+\* bookkeeping of a new version v built on par: it stops reaching the page writes G of its ancestors, and records
+\* a persistent savepoint of par iff sp
+NewVersion(v, par, G, sp) ==
+  /\ parent' = ([parent EXCEPT ![v] = par] @@ (v + 1) :> 0)
+  /\ vparts' = (vparts @@ (v + 1) :> 0)
+  /\ gone' = ([gone EXCEPT ![v] = gone[par] \cup G] @@ (v + 1) :> {})
+  /\ pins' = ([pins EXCEPT ![v] = pins[par] \cup (IF sp THEN {par} ELSE {})] @@ (v + 1) :> {})
+
+RECURSIVE Anc(_)
+Anc(v) == IF v = 0 THEN {} ELSE {v} \cup Anc(parent[v])
+\* the page writes version v reaches
+Reach(v) == {pw \in UNION {{<<u, n>> : n \in 1..vparts[u]} : u \in Anc(v)} : pw \notin gone[v]}
+
+\* commit(): durable, one-phase ("1pc") or two-phase ("2pc"); sp: the transaction created a persistent savepoint
+Begin(kind, sp, G) ==
   /\ cur.stage = "idle" /\ nextVer <= MaxVer
-  /\ cur' = [ver |-> nextVer, kind |-> kind, stage |-> "pages"]
-  /\ parent' = ([parent EXCEPT ![nextVer] = visible] @@ (nextVer + 1) :> 0)
-  /\ vparts' = (vparts @@ (nextVer + 1) :> 0)
+  /\ (SavepointTwoPhase /\ sp) => kind = "2pc"
+  /\ G \subseteq Reach(visible)
+  /\ cur' = [ver |-> nextVer, kind |-> kind, stage |-> IF sp /\ SavepointPreFlush THEN "presync" ELSE "pages", sp |-> sp]
+  /\ NewVersion(nextVer, visible, G, sp)
   /\ nextVer' = nextVer + 1
   /\ UNCHANGED <<hdr, dgod, dslots, dpages, pend, nextTxn, acked, visible, crashes, grows, bad>>
+
+\* a transaction that created a persistent savepoint: everything buffered - its own pages and those of the
+\* non-durable commits the savepoint pins - is written out and synced before the commit slot is touched
+PreSync ==
+  /\ cur.stage = "presync"
+  /\ Persist
+  /\ cur' = [cur EXCEPT !.stage = "pages"]
+  /\ UNCHANGED <<parent, gone, pins, hdr, vparts, nextVer, nextTxn, acked, visible, crashes, grows, bad>>
 
 \* header.write_secondary_slot(): in memory
 \* (the transaction id must be newer than the primary's: asserted in commit())
@@ -110,7 +151,7 @@ SetSlot(t) ==
   /\ hdr' = [hdr EXCEPT !.slots[Other(hdr.primary)] = Slot(t, cur.ver)]
   /\ nextTxn' = t + 1
   /\ cur' = [cur EXCEPT !.stage = "hdr1"]
-  /\ UNCHANGED <<parent, dgod, dslots, dpages, pend, vparts, nextVer, acked, visible, crashes, grows, bad>>
+  /\ UNCHANGED <<parent, gone, pins, dgod, dslots, dpages, pend, vparts, nextVer, acked, visible, crashes, grows, bad>>
 
 \* write_header() #1.  It goes to the write buffer; in a one-phase commit it may be overwritten
 \* there by #2 before anything reaches the backend (SkipHdr1)
@@ -118,19 +159,19 @@ WriteHdr1 ==
   /\ cur.stage = "hdr1"
   /\ pend' = pend \o HdrWrites(hdr)
   /\ cur' = [cur EXCEPT !.stage = IF cur.kind = "2pc" THEN "sync1" ELSE "swap"]
-  /\ UNCHANGED <<parent, hdr, dgod, dslots, dpages, vparts, nextVer, nextTxn, acked, visible, crashes, grows, bad>>
+  /\ UNCHANGED <<parent, gone, pins, hdr, dgod, dslots, dpages, vparts, nextVer, nextTxn, acked, visible, crashes, grows, bad>>
 
 SkipHdr1 ==
   /\ cur.stage = "hdr1" /\ cur.kind = "1pc"
   /\ cur' = [cur EXCEPT !.stage = "swap"]
-  /\ UNCHANGED <<parent, hdr, dgod, dslots, dpages, pend, vparts, nextVer, nextTxn, acked, visible, crashes, grows, bad>>
+  /\ UNCHANGED <<parent, gone, pins, hdr, dgod, dslots, dpages, pend, vparts, nextVer, nextTxn, acked, visible, crashes, grows, bad>>
 
 \* two-phase only: storage.flush()
 Sync1 ==
   /\ cur.stage = "sync1"
   /\ IF SyncBeforeFlip THEN Persist ELSE UNCHANGED <<dgod, dslots, dpages, pend>>
   /\ cur' = [cur EXCEPT !.stage = "swap"]
-  /\ UNCHANGED <<parent, hdr, vparts, nextVer, nextTxn, acked, visible, crashes, grows, bad>>
+  /\ UNCHANGED <<parent, gone, pins, hdr, vparts, nextVer, nextTxn, acked, visible, crashes, grows, bad>>
 
 \* swap_primary_slot(); two_phase_commit := kind; write_header() #2
 Swap ==
@@ -138,7 +179,7 @@ Swap ==
   /\ hdr' = [hdr EXCEPT !.primary = Other(hdr.primary), !.tpc = (cur.kind = "2pc")]
   /\ pend' = pend \o HdrWrites(hdr')
   /\ cur' = [cur EXCEPT !.stage = "sync2"]
-  /\ UNCHANGED <<parent, dgod, dslots, dpages, vparts, nextVer, nextTxn, acked, visible, crashes, grows, bad>>
+  /\ UNCHANGED <<parent, gone, pins, dgod, dslots, dpages, vparts, nextVer, nextTxn, acked, visible, crashes, grows, bad>>
 
 \* storage.flush(); the commit is acknowledged
 Sync2 ==
@@ -146,7 +187,7 @@ Sync2 ==
   /\ Persist
   /\ acked' = cur.ver /\ visible' = cur.ver
   /\ cur' = None
-  /\ UNCHANGED <<parent, hdr, vparts, nextVer, nextTxn, crashes, grows, bad>>
+  /\ UNCHANGED <<parent, gone, pins, hdr, vparts, nextVer, nextTxn, crashes, grows, bad>>
 
 \* non_durable_commit(): the secondary slot in memory, nothing synced
 NonDurable(t) ==
@@ -154,8 +195,7 @@ NonDurable(t) ==
   /\ hdr' = [hdr EXCEPT !.slots[Other(hdr.primary)] = Slot(t, nextVer)]
   /\ nextTxn' = t + 1
   /\ visible' = nextVer
-  /\ parent' = ([parent EXCEPT ![nextVer] = visible] @@ (nextVer + 1) :> 0)
-  /\ vparts' = (vparts @@ (nextVer + 1) :> 0)
+  /\ NewVersion(nextVer, visible, {}, FALSE)
   /\ nextVer' = nextVer + 1
   /\ UNCHANGED <<dgod, dslots, dpages, pend, cur, acked, crashes, grows, bad>>
 
@@ -166,18 +206,18 @@ AsIs(rec) ==
   /\ grows' = grows + 1
   /\ hdr' = [hdr EXCEPT !.rec = rec]
   /\ pend' = pend \o HdrWrites(hdr')
-  /\ UNCHANGED <<parent, dgod, dslots, dpages, vparts, cur, nextVer, nextTxn, acked, visible, crashes, bad>>
+  /\ UNCHANGED <<parent, gone, pins, dgod, dslots, dpages, vparts, cur, nextVer, nextTxn, acked, visible, crashes, bad>>
 
 \* a sync outside the two syncs of a commit (resize, open, close)
 IdleSync ==
   /\ cur.stage \notin {"sync1", "sync2"}
   /\ Persist
-  /\ UNCHANGED <<parent, hdr, vparts, cur, nextVer, nextTxn, acked, visible, crashes, grows, bad>>
+  /\ UNCHANGED <<parent, gone, pins, hdr, vparts, cur, nextVer, nextTxn, acked, visible, crashes, grows, bad>>
 
 -----------------------------------------------------------------------------
-RECURSIVE Anc(_)
-Anc(v) == IF v = 0 THEN {} ELSE {v} \cup Anc(parent[v])
-Servable(v, pg) == \A u \in Anc(v) : \A n \in 1..vparts[u] : <<u, n>> \in pg
+Servable(v, pg) == Reach(v) \subseteq pg
+\* the versions the persistent savepoints recorded in v pin can be restored
+SavepointsServable(v, pg) == \A u \in pins[v] : Servable(u, pg)
 
 \* The process dies; any subset of the unsynced writes is on the storage; the file is opened again.
 \* select_primary_slot, then do_repair (a full repair verifies the checksums of the chosen slot's
@@ -193,7 +233,7 @@ Crash ==
            p2 == IF ok1 THEN p1 ELSE Other(p1)
            failed == ~ok1 /\ (d.god.tpc \/ ~Servable(d.slots[p2].ver, d.pages))
            r == d.slots[p2].ver
-       IN /\ bad' = (bad \/ failed \/ r < acked)
+       IN /\ bad' = (bad \/ failed \/ r < acked \/ (~failed /\ ~SavepointsServable(r, d.pages)))
           \* page writes of a transaction that never committed belong to nothing any more
           /\ dpages' = {pw \in d.pages : pw[1] < nextVer}
           \* the repair commit: the same roots under a new transaction id, two-phase
@@ -205,11 +245,11 @@ Crash ==
           /\ visible' = r
   /\ pend' = <<>> /\ cur' = None /\ crashes' = crashes + 1
   /\ vparts' = [v \in DOMAIN vparts |-> IF v >= nextVer THEN 0 ELSE vparts[v]]
-  /\ UNCHANGED <<parent, nextVer, grows>>
+  /\ UNCHANGED <<parent, gone, pins, nextVer, grows>>
 
 Next ==
-  \/ WritePage \/ Begin("1pc") \/ Begin("2pc") \/ SetSlot(nextTxn) \/ WriteHdr1 \/ SkipHdr1 \/ Sync1 \/ Swap \/ Sync2
-  \/ NonDurable(nextTxn) \/ AsIs(TRUE) \/ IdleSync \/ Crash
+  \/ WritePage \/ (\E k \in {"1pc", "2pc"}, sp \in BOOLEAN, G \in SUBSET Reach(visible) : Begin(k, sp, G)) \/ SetSlot(nextTxn) \/ WriteHdr1 \/ SkipHdr1 \/ Sync1 \/ Swap \/ Sync2
+  \/ NonDurable(nextTxn) \/ AsIs(TRUE) \/ IdleSync \/ PreSync \/ Crash
 
 Spec == Init /\ [][Next]_cvars
 
